@@ -40,13 +40,28 @@ func NewTimeSeries(fromTime, untilTime Timestamp, step Duration, values []Value)
 }
 
 // FromTime returns the start time of ts.
-func (ts *TimeSeries) FromTime() Timestamp { return ts.fromTime }
+func (ts *TimeSeries) FromTime() Timestamp {
+	if ts == nil {
+		return 0
+	}
+	return ts.fromTime
+}
 
 // UntilTime returns the end time of ts.
-func (ts *TimeSeries) UntilTime() Timestamp { return ts.untilTime }
+func (ts *TimeSeries) UntilTime() Timestamp {
+	if ts == nil {
+		return 0
+	}
+	return ts.untilTime
+}
 
 // Step returns the duration between points in ts.
-func (ts *TimeSeries) Step() Duration { return ts.step }
+func (ts *TimeSeries) Step() Duration {
+	if ts == nil {
+		return 0
+	}
+	return ts.step
+}
 
 // Points converts ts to points.
 func (ts *TimeSeries) Points() Points {
@@ -131,7 +146,12 @@ func (ts *TimeSeries) DiffPointsExcludeSrcNaN(ts2 *TimeSeries) (Points, Points) 
 }
 
 // Values returns the values in ts.
-func (ts *TimeSeries) Values() []Value { return ts.values }
+func (ts *TimeSeries) Values() []Value {
+	if ts == nil {
+		return nil
+	}
+	return ts.values
+}
 
 // String returns the string representation of ts.
 func (ts *TimeSeries) String() string {
